@@ -36,23 +36,27 @@ FILE_KEYS = ("filename", "file_extension", "file_path", "folder_path")
 
 # Risky features (reproduced against the unchanged tree, see known_findings.d/C16.json).  They are kept out of
 # `clean` messages; each risky case carries exactly one of them and is accompanied by its control twin.
-RISKY = ("mbox-attachment", "nested-rfc822")
+RISKY = ("mbox-attachment", "nested-rfc822", "fold-at-encoded-word", "date-second-60")
 
 
 # ============================================================================================= worker side
 _direct_cache: dict = {}
 
 
+VOLATILE_META = {"XlsxContent": ("created", "modified")}   # filled with now() when the workbook has none: C06's concern
+
+
 def _canon(result) -> dict:
     j = result.to_json()
-    md = j.get("metadata") if isinstance(j, dict) else None
+    md = j.pop("metadata", None) if isinstance(j, dict) else None
     if isinstance(md, dict):
-        for k in FILE_KEYS:
+        for k in FILE_KEYS + VOLATILE_META.get(type(result).__name__, ()):
             md.pop(k, None)
     s = json.dumps(j, sort_keys=True, default=repr, ensure_ascii=True)
     text = result.get_full_text()
     units = [u.get_text() for u in result.iterate_units()]
-    return {"cls": type(result).__name__, "digest": core.sha(s), "text_sha": core.sha(text), "text_head": text[:80],
+    return {"cls": type(result).__name__, "digest": core.sha(s), "meta_digest": core.sha(json.dumps(md, sort_keys=True, default=repr)),
+            "text_sha": core.sha(text), "text_head": text[:80], "text_sha_eol": core.sha(text.replace("\r\n", "\n")),
             "n_units": len(units), "units_sha": core.sha("\x00".join(units))}
 
 
@@ -100,10 +104,13 @@ def _observe(r, truth_atts, blobs) -> dict:
             if not is_supported_mime_type(t["ctype"]):
                 direct.append({"skipped": "unsupported-mime"})
                 continue
-            key = (t["sha"], t["filename"].rsplit(".", 1)[-1])
+            key = (t["sha"], t["filename"].rsplit(".", 1)[-1].lower() if "." in t["filename"] else t["ext"])
             if key not in _direct_cache:
                 try:
-                    ex = get_extractor(t["filename"])
+                    try:
+                        ex = get_extractor(t["filename"])
+                    except Exception:  # noqa: BLE001 - no usable extension: the file "on its own" is named by its type
+                        ex = get_extractor("attachment." + t["ext"])
                     res = [_canon(x) for x in ex(io.BytesIO(core.unb64(blobs[t["sha"]])), t["filename"])]
                     _direct_cache[key] = {"results": res}
                 except Exception as e:  # noqa: BLE001
@@ -168,9 +175,9 @@ def truth_of(spec: dict) -> dict:
     for a in spec["atts"]:
         data = G.attachment_truth_bytes(a, pol)
         atts.append({"filename": a["filename"], "ctype": a["ctype"], "data": data, "sha": core.sha(data), "inline": a["disp"] == "inline",
-                     "cte": a["cte"], "kind": a["kind"]})
+                     "cte": a["cte"], "kind": a["kind"], "ext": {"png": "png", "bin": "bin"}.get(a["kind"], a["kind"])})
     return {"subject": spec["subject"], "from": list(spec["from"]), "to": G.flat(spec["to"]), "cc": G.flat(spec["cc"]),
-            "bcc": G.flat(spec["bcc"]), "reply_to": G.flat(spec["reply_to"]), "instant": G.instant(spec["date"]),
+            "bcc": G.flat(spec["bcc"]), "reply_to": G.flat(spec["reply_to"]), "instant": G.spec_instant(spec),
             "message_id": spec["message_id"], "plain": spec["plain"] or "", "html": spec["html"] or "", "atts": atts}
 
 
@@ -178,7 +185,8 @@ def compare_message(t: dict, o: dict, carrier: str) -> list[tuple[str, str, str]
     """-> list of (component, symptom, detail).  component/symptom are mechanism names, never values."""
     d = []
     if _ws(o["subject"]) != t["subject"]:
-        d.append(("subject", "differs", f"got {o['subject']!r} want {t['subject']!r}"))
+        glued = isinstance(o["subject"], str) and _ws(o["subject"]).replace(" ", "") == t["subject"].replace(" ", "") and len(_ws(o["subject"])) < len(t["subject"])
+        d.append(("subject", "blank-between-words-lost" if glued else "differs", f"got {o['subject']!r} want {t['subject']!r}"))
     if o["from"] != t["from"]:
         sym = "address-differs" if o["from"][1] != t["from"][1] else "display-name-differs"
         d.append(("from", sym, f"got {o['from']!r} want {t['from']!r}"))
@@ -209,11 +217,9 @@ def compare_message(t: dict, o: dict, carrier: str) -> list[tuple[str, str, str]
         if not ok and carrier == "mbox":
             ok = got == _body(G.mboxrd_escape_text(t[k]))
         if not ok:
-            if not want:
-                sym = "absent-body-not-empty"
-            elif not got:
+            if not got:
                 sym = "lost"
-            elif want in got:
+            elif want in got:                      # includes: no such body in the message, yet text is reported
                 sym = "foreign-text-added"
             elif got in want or got.replace("\n", "") in want.replace("\n", ""):
                 sym = "truncated"
@@ -267,13 +273,18 @@ def compare_message(t: dict, o: dict, carrier: str) -> list[tuple[str, str, str]
         for w, dr in zip(want_all, o["direct"]):
             if w["inline"] and not any(g["filename"] == w["filename"] for g in o["atts"]):
                 continue
-            if "results" in dr:
-                exp += dr["results"]
+            textual = w["cte"] in ("7bit", "8bit") and w["kind"] in ("txt", "eml")
+            for x in dr.get("results", []):
+                exp.append(dict(x, textual=textual))
         if "sup_error" in o:
             d.append(("supported-attachments", "raised", repr(o["sup_error"])))
         else:
-            gs = [(x["cls"], x["digest"]) for x in o["sup"]]
-            es = [(x["cls"], x["digest"]) for x in exp]
+            def ident(x, textual):
+                return (x["cls"], x["text_sha_eol"]) if textual else (x["cls"], x["digest"], x["meta_digest"])
+
+            tx = [e["textual"] for e in exp] + [False] * len(o["sup"])
+            gs = [ident(x, tx[i]) for i, x in enumerate(o["sup"])]
+            es = [ident(x, x["textual"]) for x in exp]
             if gs != es:
                 if [x[0] for x in gs] == [x[0] for x in es]:
                     sym = "content-differs-from-direct-extraction"
@@ -321,18 +332,29 @@ def feature_of(spec: dict) -> str:
     return spec.get("risky") or "clean"
 
 
-def build_case(rng, tok, fx, n_msgs: int, risky: str | None, cid: int) -> dict:
+def build_case(rng, tok, fx, n_msgs: int, risky: str | None, cid: int, stats=None) -> dict:
     """One mailbox of ``n_msgs`` messages.  Carries: every message as .eml, the mailbox, and the twins."""
     allow = {"max_atts": 4}
     specs = []
     for i in range(n_msgs):
         s = G.random_spec(rng, tok, fx, allow=allow)
+        if s["hdr"]["mode"] == "stdlib":
+            bad = G.header_roundtrip_problems(s)
+            if bad:                                  # writer fault: not the reader's problem, re-render by hand
+                G.to_hand_mode(s)
+                if stats is not None:
+                    stats["stdlib_writer_faults_avoided"] = stats.get("stdlib_writer_faults_avoided", 0) + 1
         specs.append(s)
-    if risky == "nested-rfc822" and specs:
+    if risky and specs:
         s = rng.choice(specs)
-        s["atts"].insert(rng.randrange(len(s["atts"]) + 1), G.nested_eml_attachment(rng, tok, fx, s["hdr"]["policy"]))
-        s["risky"] = "nested-rfc822"
-        s["features"] = sorted(set(s["features"]) | {"att:eml:8bit", "risky:nested-rfc822"})
+        s["risky"] = risky
+        if risky == "nested-rfc822":
+            s["atts"].insert(rng.randrange(len(s["atts"]) + 1), G.nested_eml_attachment(rng, tok, fx, s["hdr"]["policy"]))
+            s["features"] = sorted(set(s["features"]) | {"att:eml:8bit", "risky:nested-rfc822"})
+        elif risky == "fold-at-encoded-word":
+            G.force_fold_at_encoded_word(rng, tok, s)
+        elif risky == "date-second-60":
+            G.force_second_60(s)
     eol = rng.choice([b"\n", b"\n", b"\r\n"])
     mb = {"eol": "CRLF" if eol == b"\r\n" else "LF", "blank_lines": rng.choice([1, 1, 1, 2]), "final_blank": rng.random() < 0.8}
     return {"cid": cid, "specs": specs, "mbox_opts": mb, "risky": risky}
@@ -360,7 +382,7 @@ def materialise(case: dict) -> dict:
         for a in t["atts"]:
             blobs[a["sha"]] = core.b64(a["data"])
         items.append({"kind": "eml", "b64": core.b64(raw), "path": f"c16-{case['cid']}-{i}.eml",
-                      "truth_atts": [[{"filename": a["filename"], "ctype": a["ctype"], "sha": a["sha"]} for a in t["atts"]]]})
+                      "truth_atts": [[{"filename": a["filename"], "ctype": a["ctype"], "sha": a["sha"], "ext": a["ext"]} for a in t["atts"]]]})
         index.append(("eml", i, None))
     env = envelopes(case["cid"], specs)
     mbox, escaped = G.write_mbox(raws, env, eol, mbo["blank_lines"], mbo["final_blank"])
@@ -382,21 +404,33 @@ def materialise(case: dict) -> dict:
                 for a in tt["atts"]:
                     blobs[a["sha"]] = core.b64(a["data"])
                 items.append({"kind": "eml", "b64": core.b64(tr), "path": f"c16-{case['cid']}-{i}-twin.eml",
-                              "truth_atts": [[{"filename": a["filename"], "ctype": a["ctype"], "sha": a["sha"]} for a in tt["atts"]]]})
+                              "truth_atts": [[{"filename": a["filename"], "ctype": a["ctype"], "sha": a["sha"], "ext": a["ext"]} for a in tt["atts"]]]})
                 index.append(("eml-twin", i, tw))
     return {"items": items, "blobs": blobs, "index": index, "escaped": escaped, "mbox_len": len(mbox)}
 
 
 def twin_of(spec: dict):
-    """Benign form of the message: for the eml carrier the nested message is dropped; for the mbox carrier
-    every attachment is dropped (done by the caller).  None when the message needs no twin at all."""
+    """Benign form of the message: the nested message dropped / the Subject folded elsewhere; for the mbox carrier
+    every attachment is dropped as well (done by the caller).  None when the message needs no twin at all."""
     if spec.get("risky") == "nested-rfc822":
         t = copy.deepcopy(spec)
         t["atts"] = [a for a in t["atts"] if a["kind"] != "eml"]
         t.pop("risky")
         t["features"] = sorted(f for f in t["features"] if f not in ("att:eml:8bit", "risky:nested-rfc822"))
         return t
-    if [a for a in spec["atts"]]:
+    if spec.get("risky") == "fold-at-encoded-word":
+        t = copy.deepcopy(spec)
+        t["hdr"]["fold_at_ew"] = False
+        t.pop("risky")
+        t["features"] = sorted(f for f in t["features"] if f != "risky:fold-at-encoded-word")
+        return t
+    if spec.get("risky") == "date-second-60":
+        t = copy.deepcopy(spec)
+        t["date_style"] = "std"
+        t.pop("risky")
+        t["features"] = sorted(set(f for f in t["features"] if f not in ("risky:date-second-60", "date:second-60")) | {"date:std"})
+        return t
+    if spec["atts"]:
         return copy.deepcopy(spec)
     return None
 
@@ -405,7 +439,9 @@ def twin_of(spec: dict):
 KNOWN_SYMPTOMS = {
     # risky feature -> {(carrier, component, symptom)} that the feature is known to cause
     "mbox-attachment": {("mbox", "attachment", "attachments-not-returned")},
-    "nested-rfc822": {("eml", "body-plain", "foreign-text-added")},
+    "nested-rfc822": {("eml", "body-plain", "foreign-text-added"), ("mbox", "body-plain", "foreign-text-added")},
+    "fold-at-encoded-word": {("eml", "subject", "blank-between-words-lost"), ("mbox", "subject", "blank-between-words-lost")},
+    "date-second-60": {("mbox", "extraction", "raised-ValueError")},
 }
 
 
@@ -429,16 +465,16 @@ def main(run, only_cases=None):
     ]
     cases = []
     if only_cases is None:
-        n_clean = run.n(110, 2600)
-        n_nested = run.n(12, 200)
+        n_clean = run.n(300, 5000)
+        n_risky = run.n(12, 200)
         tokstart = rng.randrange(0, 50000)
-        for cid in range(n_clean + n_nested):
+        plan = [None] * n_clean + ["nested-rfc822"] * n_risky + ["fold-at-encoded-word"] * n_risky + ["date-second-60"] * (n_risky // 2)
+        for cid, risky in enumerate(plan):
             tok = G.Tokens(tokstart + rng.randrange(0, 40000))
-            risky = "nested-rfc822" if cid >= n_clean else None
             n_msgs = rng.choice([0, 1, 1, 2, 3, 4, 5, 6, 7, 8]) if risky is None else rng.randrange(1, 4)
             if cid < 9:
                 n_msgs = cid                       # every mailbox size 0..8 in every run
-            cases.append(build_case(rng, tok, fx, n_msgs, risky, cid))
+            cases.append(build_case(rng, tok, fx, n_msgs, risky, cid, run.counters))
     else:
         cases = only_cases
 
@@ -560,6 +596,10 @@ def judge_case(run, case, m, obs):
     for carrier, idx, comp, sym, det in diffs:
         spec = specs[idx] if idx is not None else None
         feature = "clean"
+        if spec is None and case.get("risky") and (carrier, comp, sym) in KNOWN_SYMPTOMS.get(case["risky"], ()):
+            tw = twin_dirty.get("mbox")          # mailbox-level symptom of a mailbox holding exactly one risky message
+            if tw is not None and not tw:
+                feature = case["risky"]
         if spec is not None:
             if spec.get("risky") and (carrier, comp, sym) in KNOWN_SYMPTOMS.get(spec["risky"], ()):
                 feature = spec["risky"]
